@@ -301,6 +301,8 @@ def run_attempt(case, g, loc, rel, dst, crash_at=None, mid=False, timeout=60):
         code = 0
         try:
             os.close(r_fd)
+            if case.get("workers", 0) > 1:
+                os.setsid()          # joblib workers live in this session: the harness kills them with the group
             sys.addaudithook(make_hook(base, fd_tr, crash_at, mid, partial_of))
             try:
                 res = fn(g, loc, relative_path=rel, num_workers=case.get("workers", 0))
@@ -323,6 +325,12 @@ def run_attempt(case, g, loc, rel, dst, crash_at=None, mid=False, timeout=60):
             os.waitpid(pid, 0)
             raise Infra("copy child timed out")
         time.sleep(0.0005)
+    if case.get("workers", 0) > 1:
+        try:
+            os.killpg(pid, signal.SIGKILL)      # a kill takes the whole job (parent and its workers); also reaps idle workers
+        except (ProcessLookupError, PermissionError):
+            pass
+        time.sleep(0.05)
     data = b""
     while True:
         chunk = os.read(r_fd, 65536)
@@ -449,7 +457,7 @@ def oracle(case, obs):
     final = obs["attempts"][-1]
     again = obs["again"]
     pre = crashed[-1]["state"] if crashed else None
-    hist = f"fn={case['fn']} fmt={case['fmt']} rel={case['rel']} crashes={case.get('crashes', [])}"
+    hist = f"fn={case['fn']} fmt={case['fmt']} rel={case['rel']} num_workers={case.get('workers', 0)} crashes={case.get('crashes', [])}"
     if crashed:
         last = crashed[-1]
         hist += f" (last kill before op {last['next_op']}; left: {describe_prestate(pre, user)})"
@@ -684,11 +692,18 @@ def requests_for(case, obs):
                 dirs.add(dst_rel(case) + TMP_SUFFIX)
         mid_op = a["next_op"] if a.get("mid") and a["next_op"] and a["next_op"][0] == "open" else None
         labels = canon_trace(case, a["trace"], dirs, mid_op)
-        if case.get("workers", 0) > 1 and ["createEnd"] in labels and not any(l[0] == "create" for l in labels):
+        if case.get("workers", 0) > 1 and not any(l[0] == "create" for l in labels):
             # num_workers > 1: the files are written by untraced joblib workers in an unobservable order (an oracle of the model
-            # anyway); a call that reached the end marker has waited for all of them
-            k = labels.index(["createEnd"])
-            labels = labels[:k] + [x for i in range(len(expected_tree(case))) for x in (["create", i], ["fill", i])] + labels[k:]
+            # anyway). A call that reached the end marker - or was killed just before writing it - has waited for ALL unzip
+            # jobs, so every member of every zip must have been created and filled (the comparison of the abstract state
+            # with the model's and the byte-level oracle then notice any member that is missing).
+            allf = [x for i in range(len(expected_tree(case))) for x in (["create", i], ["fill", i])]
+            if ["createEnd"] in labels:
+                k = labels.index(["createEnd"])
+                labels = labels[:k] + allf + labels[k:]
+            elif a["status"] == "crashed" and a.get("next_op") and a["next_op"][0] == "open" \
+                    and os.path.basename(a["next_op"][1]) == END and not a.get("mid"):
+                labels = labels + allf
         reqs.append({"op": "cp.attempt", "src": src, "fs": model_state(case, pre), "tape": tape_of(labels)})
         exps.append({"labels": labels, "fs": model_state(case, a["state"]), "status": a["status"],
                      "result": normalise_result(case, a["result"]) if a["status"] == "returned" else None})
@@ -731,6 +746,18 @@ def src_descr(case, g, rel):
 # ----------------------------------------------------------------------------------------------
 # worker pool: light processes (the copying modules are imported without the torch-heavy package __init__)
 # ----------------------------------------------------------------------------------------------
+def _child_env():
+    """environment of the processes that run the real copy functions: harness on the path, and `kdv_site/sitecustomize.py`
+    (stub parent packages, also picked up by joblib's worker processes) first"""
+    env = dict(os.environ)
+    h = Path(__file__).resolve().parents[1]
+    env["PYTHONPATH"] = os.pathsep.join([str(h / "kdv_site"), str(h), env.get("PYTHONPATH", "")])
+    env["PYTHONHASHSEED"] = "0"
+    env["KDV_STUB_KAPPADATA"] = "1"
+    env["KDV_REPO"] = str(REPO)
+    return env
+
+
 def _stub_packages():
     import types
     if "kappadata" in sys.modules:
@@ -764,9 +791,7 @@ def worker_main():
 class RealPool:
     def __init__(self, n=None):
         self.n = n or max(2, min(8, (os.cpu_count() or 4) // 2))
-        env = dict(os.environ)
-        env["PYTHONPATH"] = str(Path(__file__).resolve().parents[1]) + os.pathsep + env.get("PYTHONPATH", "")
-        env["PYTHONHASHSEED"] = "0"
+        env = _child_env()
         self.procs = [subprocess.Popen([sys.executable, "-m", "kdv.copyprotocol", "worker"], stdin=subprocess.PIPE,
                                        stdout=subprocess.PIPE, text=True, env=env, bufsize=1) for _ in range(self.n)]
 
@@ -843,9 +868,7 @@ def _call_cmd(case, g, loc, rel):
 
 
 def _strace_env():
-    env = dict(os.environ)
-    env["PYTHONPATH"] = str(Path(__file__).resolve().parents[1]) + os.pathsep + env.get("PYTHONPATH", "")
-    env["PYTHONHASHSEED"] = "0"
+    env = _child_env()
     env["PYTHONDONTWRITEBYTECODE"] = "1"
     return env
 
@@ -1148,6 +1171,7 @@ class C20(PropertyCheck):
             c3 = c3[:400 if quick else 6000]
             o3 = self._run(pool, c3)
             self._judge(res, c3, o3)
+            n_zipc = self._zipcount_leg(res, pool)
             n_strace = 0
             n_timed = 0
             if not quick:
@@ -1158,6 +1182,7 @@ class C20(PropertyCheck):
                         f"present/absent x README/zip-count variants x user-provided folders x invalid source) uninterrupted; every crash point "
                         f"(before each mutating op + inside each file creation) of the first attempt ({len(c1)}); second crash points "
                         f"{len(c2)} of {n2_all} ({'sampled' if quick else 'complete'}); {len(c3)} sampled histories with three kills; "
+                        f"{n_zipc} folder-of-zips histories with 1..7 zips x num_workers 0..3 (joblib path {'sampled incl. 5/2, 7/3' if quick else 'complete'}); "
                         f"{n_strace} real-SIGKILL (strace) histories, {n_timed} timed process-group kills with num_workers=2; each history ends with two "
                         "uninterrupted calls; distinct = (scenario, kill-point kinds, final result)")
         finally:
@@ -1188,6 +1213,37 @@ class C20(PropertyCheck):
         self._judge(res, cases, obss)
         return len(cases)
 
+    def _zipcount_leg(self, res, pool):
+        """folder-of-zips sources with 1..7 zips x num_workers 0..3: uninterrupted, plus kills right before the end marker and
+        during the deletion of the leftovers on the following call. quick: all counts for num_workers 0/1 and a sample
+        (incl. 5 zips / 2 workers, 7 / 3) for the joblib path; thorough: everything."""
+        quick = self.tier == "quick"
+        combos = [(n, w) for n in range(1, 8) for w in (0, 1)]
+        heavy = [(5, 2), (7, 3), (3, 2), (4, 3)] if quick else [(n, w) for n in range(1, 8) for w in (2, 3)]
+        cases = []
+        for fn in ("folder", "imagefolder"):
+            for n, w in combos + heavy:
+                if quick and w <= 1 and (n + (fn == "folder")) % 2 and n not in (5, 7):
+                    continue
+                files = [f"m{i}.bin" for i in range(n)] if fn == "folder" else [f"k{i}/img.bin" for i in range(n)]
+                if fn == "imagefolder" and n >= 3:
+                    files.append("k0/second.bin")
+                cases.append({"fn": fn, "fmt": "zips", "files": files, "rel": "train", "zbatch": 1, "workers": w, "crashes": []})
+        obss = self._run(pool, cases)
+        self._judge(res, cases, obss)
+        # interrupted: killed right before the end marker (all jobs done), then the next call deletes and extracts again
+        inter = []
+        for c, o in zip(cases, obss):
+            if (c["workers"], len(c["files"])) in ((2, 5), (3, 7), (0, 5)) or (not quick and c["workers"] >= 2 and len(c["files"]) % 2):
+                n_ops = len(o["attempts"][0]["trace"])
+                inter.append(dict(c, crashes=[n_ops]))
+                inter.append(dict(c, crashes=[n_ops, 2]))
+        obsi = self._run(pool, inter)
+        self._judge(res, inter, obsi)
+        for c in cases + inter:
+            res.bump(f"zips={sum(1 for _ in set(f.split('/')[0] for f in c['files']))}:workers={c['workers']}")
+        return len(cases) + len(inter)
+
     def _workers_leg(self, res, pool):
         cases = []
         for fn in ("folder", "imagefolder"):
@@ -1195,7 +1251,7 @@ class C20(PropertyCheck):
                     TREE_FILES + ["c2/w.bin", "c3/v.bin"], "rel": "train", "workers": 2, "zbatch": 1, "crashes": []}
             cases.append(dict(base, _strace={"timed_ms": None}))
             for _ in range(3):
-                cases.append(dict(base, _strace={"timed_ms": self.rng.randint(300, 6000)}))
+                cases.append(dict(base, _strace={"timed_ms": self.rng.randint(250, 1600)}))
         obss = self._run(pool, cases)
         for c, o in zip(cases, obss):
             a = o["attempts"][-2] if len(o["attempts"]) >= 2 else None
